@@ -32,7 +32,7 @@ type CallCase struct {
 var callParams = []string{"pa", "pb", "pc"}
 
 // names that must not be visible after the calls/cases that created them
-var callProbeNames = []string{"pa", "pb", "pc", "la", "li", "lx", "mq", "ma", "loc1", "loc2", "ga", "ca", "va", "rn", "en", "on", "na", "ra", "loc3", "da", "dx", "dq", "oa", "qa", "ma1", "ma2", "mo", "mb1", "mb2"}
+var callProbeNames = []string{"pa", "pb", "pc", "la", "li", "lx", "mq", "ma", "loc1", "loc2", "ga", "ca", "va", "rn", "en", "on", "na", "ra", "loc3", "da", "dx", "dq", "oa", "qa", "ma1", "ma2", "mo", "mb1", "mb2", "qb", "loc4", "loc5", "wn", "wx", "lq", "lm1", "lother", "lb", "lbo", "ml1", "mlo"}
 
 func (c *CallCase) program() string {
 	var sb strings.Builder
@@ -74,8 +74,15 @@ function donext2(qa) { return [donext(qa)] }
 function noret(ra) { loc3 = ra }
 function deepexit(da) { for (dx in [1]) { match (da) { dq => { exit } } } }
 function outer(oa) { return [oa, mklocal(oa), clobber(oa)] }
+function proc(qb) { loc4 = clobber(qb)
+ loc5 = fid(qb) }
+function walk(wn) { if (wn is array) { for (wx in wn) { walk(wx) } } else { return wn } }
+function litmatch(lq) { return match (lq) { [] => "e", [0, 0] => "o", [1, [2, 3]] => "d", [lm1, 9] => ["n", lm1], lother => "x" } }
+function litblock(lb) { match (lb) { [] => { LB = "e" }, [0, 0] => { LB = "o" }, lbo => { LB = "x" } }
+ return LB }
 BEGIN { G = "g0"
  NX = "n0"
+ LB = "l0"
  step = 0 }
 { step++ }
 $.op == "id0" { print step, fid() }
@@ -106,6 +113,11 @@ $.op == "mblock" { mres = "none"
  match ($.a[0]) { [mb1] => { mres = mb1 }, mb2 => { mres = ["s", mb2] } }
  print step, mres }
 $.op == "pat" && clobber($.a[0]) == 99 { print step, "pat" }
+$.op == "proc" { print step, proc($.a[0]) }
+$.op == "walk" { print step, walk($.a[0]) }
+$.op == "mlit" { print step, match ($.a[0]) { [] => "e", [0, 0] => "o", [1, [2, 3]] => "d", [ml1, 9] => ["n", ml1], mlo => "x" } }
+$.op == "litmatch" { print step, litmatch($.a[0]) }
+$.op == "litblock" { print step, litblock($.a[0]) }
 $.op == "exit" { print step, "bye"
  deepexit(1)
  print step, "NOT REACHED" }
@@ -271,6 +283,53 @@ func (c *CallCase) model() (lines []string, exited bool, ok bool) {
 			}
 		case "pat":
 			emit("pat")
+		case "proc":
+			emit("null")
+		case "walk":
+			// only a non-array argument is returned; walking an array runs off the end of the body
+			if arg(0).Kind == 'a' {
+				emit("null")
+			} else {
+				emit(p(arg(0)))
+			}
+		case "mlit", "litmatch", "litblock":
+			a := arg(0)
+			res := ""
+			switch {
+			case a.Kind == 'a' && len(a.Arr) == 0:
+				res = "e"
+			case a.Kind == 'a' && len(a.Arr) == 2 && a.Arr[0].Kind == 'n' && a.Arr[1].Kind == 'n' && a.Arr[0].Num == 0 && a.Arr[1].Num == 0:
+				res = "o"
+			case a.Kind != 'a':
+				res = "x"
+			default:
+				// array subjects are drawn from a fixed table (see genCallOp)
+				key, _ := pretty(a, false)
+				switch key {
+				case "[1, [2, 3]]":
+					res = "d"
+				case "[5, 9]":
+					res = "n5"
+				case "[0, 1]", "[7]", "[1, 2, 3]":
+					res = "x"
+				case "[3, 9]":
+					res = "n3"
+				default:
+					return nil, false, false
+				}
+			}
+			if op.Op == "litblock" {
+				if res == "d" || res == "n5" || res == "n3" {
+					res = "x"
+				}
+				emit(res)
+			} else if res == "n5" {
+				emit(p(arr(str("n"), num(5))))
+			} else if res == "n3" {
+				emit(p(arr(str("n"), num(3))))
+			} else {
+				emit(res)
+			}
 		case "exit":
 			emit("bye")
 			return lines, true, true
@@ -485,8 +544,8 @@ func genCallArg(t *Tape) string {
 }
 
 func genCallOp(t *Tape) CallOp {
-	ops := []string{"id0", "id1", "id2", "id3", "id4", "loopret", "mklocal", "setg", "readg", "clobber", "viaother", "rec", "mutual", "donext", "donext2", "noret", "outer", "mexpr", "mblock", "pat"}
-	w := []int{1, 2, 2, 2, 2, 3, 3, 2, 2, 3, 2, 2, 1, 3, 2, 2, 2, 4, 3, 2}
+	ops := []string{"id0", "id1", "id2", "id3", "id4", "loopret", "mklocal", "setg", "readg", "clobber", "viaother", "rec", "mutual", "donext", "donext2", "noret", "outer", "mexpr", "mblock", "pat", "proc", "walk", "mlit", "litmatch", "litblock"}
+	w := []int{1, 2, 2, 2, 2, 3, 3, 2, 2, 3, 2, 2, 1, 3, 2, 2, 2, 4, 3, 2, 3, 2, 3, 3, 2}
 	op := ops[t.Weighted(w...)]
 	var args []string
 	switch op {
@@ -498,6 +557,11 @@ func genCallOp(t *Tape) CallOp {
 		args = []string{[]string{"1", "2", "[1,2]", `["a",[3]]`, `"str"`, "null", "5", "[9,8]"}[t.Draw(8)]}
 	case "mblock":
 		args = []string{[]string{"[1]", "2", `["q"]`, `"str"`, "[1,2]", "null", "[[3]]"}[t.Draw(7)]}
+	case "mlit", "litmatch", "litblock":
+		// subjects never put a container against a scalar literal (== on containers is an error)
+		args = []string{[]string{"[]", "[0,0]", "[1,[2,3]]", "[5,9]", "[0,1]", "[7]", "[1,2,3]", "7", `"s"`, "null", "[3,9]"}[t.Draw(11)]}
+	case "walk":
+		args = []string{[]string{"[1,[2,3]]", "5", `"leaf"`, "[]", "[[1],[2]]", "null"}[t.Draw(6)]}
 	default:
 		n := t.Draw(5)
 		for i := 0; i < n; i++ {
